@@ -182,10 +182,14 @@ def forbidden_strings(acc):
     """[(label, needle)] for an UNENCRYPTED account"""
     out = []
     if acc.seed:
-        out.append(("seed", acc.seed))
+        # a needle shorter than 12 characters (free-form seeds such as '42') occurs in base64 ciphertext / hex ids by chance:
+        # only needles long enough for a coincidence to be negligible are searched for (false alarm seen in the thorough tier)
+        if len(acc.seed) >= 12 or " " in acc.seed.strip():
+            out.append(("seed", acc.seed))
         spans = [m.span() for m in re.finditer(r"\S+", acc.seed)]
         for i in range(len(spans) - 2):
-            out.append(("seed-3-words", acc.seed[spans[i][0]:spans[i + 2][1]]))
+            w3 = acc.seed[spans[i][0]:spans[i + 2][1]]
+            out.append(("seed-3-words", w3))
     if acc.private_key is not None:
         raw = acc.private_key.private_key_bytes
         out.append(("xprv", acc.private_key.extended_key_string()))
